@@ -1,10 +1,10 @@
-"""C10 — metadata a format cannot hold is reported, never silently altered."""
+"""C02 — write-then-read round trip preserves entries in every format."""
 from props._codec import Codec
 
-PROP = 'C10'
-PROPS_MODULES = ['LA.Props.C10']
+PROP = 'C02'
+PROPS_MODULES = ['LA.Props.C02']
 GEN = ['TarLayout', 'CpioLayout', 'ArLayout', 'CodecConsts']
 ASSUMPTIONS = []
 TRUSTED = []
 MANIFEST = {'text': 'wip', 'note': '', 'technique': 'Lean 4 proof + differential correspondence'}
-ENGINES = [Codec('c10'), Codec('c10', bulk=True)]
+ENGINES = [Codec('c02'), Codec('c02', bulk=True)]
